@@ -108,7 +108,26 @@ def gen_case(rng, malformed):
             case['ps'] = [p * (1 + 4e-6) for p in ps]
         elif fault == 'range':
             case['base'] = case['base_arg'] = 'linear'
-            case['ps'] = [1.5, -0.5] + [0.0] * (len(ps) - 2) if len(ps) >= 2 else [1.5]
+            variant = rng.choice(['both', 'neg_only', 'neg_small', 'perturb'])
+            if len(ps) < 2:
+                case['ps'] = [1.5]
+            elif variant == 'both' or len(ps) < 3:
+                case['ps'] = [1.5, -0.5] + [0.0] * (len(ps) - 2)
+            elif variant == 'neg_only':
+                # normalised, one negative entry, nothing above one
+                case['ps'] = [-0.5, 0.75, 0.75] + [0.0] * (len(ps) - 3)
+            elif variant == 'neg_small':
+                case['ps'] = [-1e-4, 0.5 + 1e-4, 0.5] + [0.0] * (len(ps) - 3)
+            else:
+                q = list(ps)
+                i, j = rng.sample(range(len(q)), 2)
+                delta = q[i] + rng.choice([0.25, 0.01, 1e-3])
+                q[i] -= delta
+                q[j] += delta
+                case['ps'] = q
+            order = list(range(len(case['ps'])))
+            rng.shuffle(order)
+            case['ps'] = [case['ps'][k] for k in order]
         elif fault == 'len':
             case['ps'] = ps + [0.0] if rng.random() < 0.5 or len(ps) < 2 else ps[:-1]
             case['form'] = 'seq'
